@@ -38,6 +38,13 @@ func NewSocketAppProxyClient(clientAddr string, timeout time.Duration, logger *l
 
 func (p *SocketAppProxyClient) getConnection() error {
 	if p.rpc == nil {
+		if sc, ok, err := simDial(p.clientAddr); ok {
+			if err != nil {
+				return err
+			}
+			p.rpc = jsonrpc.NewClient(sc)
+			return nil
+		}
 		conn, err := net.DialTimeout("tcp", p.clientAddr, p.timeout)
 		if err != nil {
 			return err
